@@ -21,7 +21,7 @@ EXPLANATION = 'theorems about the model assemble; exact positional correspondenc
 
 
 def scenarios(seed, tier):
-    n = 300 if tier == 'quick' else 3000
+    n = 600 if tier == 'quick' else 3600
     rnd = random.Random(seed * 7919 + 7)
     for i in range(n):
         s = gen.gen_portfolio(random.Random(rnd.getrandbits(48)), tmax=12 if tier == 'quick' else 20, adv_names=(i % 3 == 0),
